@@ -1,9 +1,10 @@
 SPECIFICATION Spec
 CONSTANTS
-  Ecus = {1, 2, 3}
-  Apids = {1, 2, 3}
+  Ecus = {1, 2, 3, 4}
+  Apids = {1, 2, 3, 4}
   Ctids = {1, 2}
-  Cap = 2
+  Base = 3
+  Digits = 1
   MaxMsgs = 5
 INVARIANTS ContractHolds TablesOK
 CHECK_DEADLOCK FALSE
